@@ -981,8 +981,25 @@ def _cs_events(ctx):
     return goals
 
 
+def _cs_tracking_before_start(ctx):
+    """C04 (a first-of / quorum join is started once, not zero times): the write that records this branch in the join's row
+    (_completed_branches, _activated_branches) bumps the join's version -- the token of the claim.  It therefore happens BEFORE
+    the commit that pushes StartStage for the downstream stages: afterwards a worker may already have read the join for its
+    claim, and the late bump would make that claim fail with nobody left to start the join."""
+    txns = {t.tid: t for t in T.transactions(ctx.st.effects)}
+    started = False
+    bad = False
+    for e in ctx.st.effects:
+        if e.kind == "txn_commit" and any(b.kind == "push" and b.data["cls"] == "StartStage" for b, _ in T.flat(txns[e.data["txn"]].effects)):
+            started = True
+        elif e.kind == "standalone" and e.data.get("op") in ("update_join_tracking", "record_activated_branches") and started:
+            bad = True
+    return [("join-row-written-before-the-downstream-start-is-committed", z3.BoolVal(not bad))]
+
+
 def complete_stage():
     obls = [
+        Obl("C04/tracking-before-start/CompleteStage", _cs_tracking_before_start, when="any"),
         Obl("C02/guard/CompleteStage", _cs_guard, when="any"),
         Obl("C01/T1/CompleteStage", t1_or_absorbing(_cs_absorbing), when="any"),
         Obl("C02/T1/CompleteStage", t1_or_absorbing(_cs_absorbing), when="any"),
@@ -1133,6 +1150,14 @@ def _ss_claim_first(ctx):
     name_of_loaded = I.enum_getattr(SEnum(WS, lds), "name")
     goals.append(("expected-phase-is-loaded-status", I.ops.eq(exp, name_of_loaded)))
     goals.append(("stores-running", se.data["snap"]["status"].t == status(I, "RUNNING")))
+    # the claim itself does not mark a first-of / quorum join as fired: the flag is written after the claim and persisted by the
+    # plan commit.  Stored with the claim, a plan commit that fails afterwards leaves a claimed, never planned join that readiness
+    # reports "already fired" to every later branch -- started zero times
+    snap = se.data["snap"]
+    if "ctx_has" in snap and "ctx_has" in ld:
+        jf = I.ops.lit("_join_fired").t
+        goals.append(("the-claim-does-not-mark-the-join-fired", z3.And(z3.Select(snap["ctx_has"], jf) == z3.Select(ld["ctx_has"], jf),
+                      z3.Implies(z3.Select(ld["ctx_has"], jf), z3.Select(snap["ctx_vals"], jf) == z3.Select(ld["ctx_vals"], jf)))))
     tasks_lid = ld["tasks_lid"]
     no_tasks = I.ops.base_len(tasks_lid, ()) == 0
     syn = [e.data["obj"] for e in ctx.st.effects if e.kind == "load" and e.data["kind"] == "stage_list" and e.data["how"] == "synthetic"]
